@@ -97,7 +97,10 @@ class CutPipe:
 
 
 def async_session(version: str, std: bool, lib_server: bool, reader: str, k: int | None, order: str = "peer-first") -> dict:
-    """returns observation dict"""
+    """returns observation dict. reader 'server-copy' / 'server-buffered': the wrapped transport is not read directly but handed to
+    the low-level AsyncStreamServer (no disconnect_error_filter), whose request handler is then the reader: a clean end-of-stream is
+    the handler generator being closed (GeneratorExit), an error is an exception thrown at its yield"""
+    lines = reader.startswith("server")
     obs: dict[str, Any] = {"plaintext": b"", "end": None, "wrap": None}
 
     async def main(loop):
@@ -117,12 +120,12 @@ def async_session(version: str, std: bool, lib_server: bool, reader: str, k: int
                 await peer.handshake()
                 if order == "peer-first":
                     for m in MSGS:
-                        await peer.write(m)
+                        await peer.write(m + (b"\n" if lines else b""))
                     await peer.unwrap()
                     obs["peer_end"] = await peer.read_until_end()
                 else:
                     for m in MSGS:
-                        await peer.write(m)
+                        await peer.write(m + (b"\n" if lines else b""))
                     obs["peer_end"] = await peer.read_until_end()
                     await peer.unwrap()
             except (ssl.SSLError, OSError) as exc:
@@ -144,6 +147,45 @@ def async_session(version: str, std: bool, lib_server: bool, reader: str, k: int
             return
         got = bytearray()
         want = sum(len(m) for m in MSGS)
+        if lines:
+            from easynetwork.lowlevel.api_async.servers.stream import AsyncStreamServer
+            from easynetwork.protocol import BufferedStreamProtocol, StreamProtocol
+            from easynetwork.serializers import StringLineSerializer
+
+            listener = memtransport.MemListener(backend)
+            ser = StringLineSerializer()
+            server = AsyncStreamServer(listener, BufferedStreamProtocol(ser) if reader == "server-buffered" else StreamProtocol(ser), max_recv_size=4096)
+            finished = asyncio.Event()
+
+            async def handler(client):
+                try:
+                    while True:
+                        req = yield
+                        got.extend(req.encode() + b"\n")
+                except GeneratorExit:
+                    obs["end"] = "clean"
+                    raise
+                except BaseException as exc:  # noqa: BLE001
+                    obs["end"] = f"error:{type(exc).__name__}"
+                finally:
+                    finished.set()
+
+            serve = asyncio.ensure_future(server.serve(handler))
+            listener.connect(t)
+            try:
+                await asyncio.wait_for(finished.wait(), 60)
+            except asyncio.TimeoutError:
+                obs["end"] = "error:handler-never-finished"
+            for _ in range(5):
+                await asyncio.sleep(0)
+            obs["plaintext"] = bytes(got)
+            obs["aclose"] = "ok"
+            obs["wrapped_closed"] = a.aclose_entered > 0
+            serve.cancel()
+            await asyncio.gather(serve, return_exceptions=True)
+            await server.aclose()
+            await asyncio.wait([pt], timeout=10)
+            return
         try:
             while True:
                 if order == "lib-first" and len(got) >= want:
@@ -616,6 +658,10 @@ def plan(tier: str, seed: int) -> list[dict]:
                 for lib_server in (False, True):
                     shards.append({"seed": seed * 1000 + i, "kind": kind, "version": version, "std": std, "lib_server": lib_server, "tier": tier})
                     i += 1
+    for version in ("1.2", "1.3"):
+        for std in (True, False):
+            shards.append({"seed": seed * 1000 + i, "kind": "async-lowlevel-server", "version": version, "std": std, "lib_server": True, "tier": tier})
+            i += 1
     for kind in ("sync-tcp-client", "async-tcp-client"):
         for version in ("1.2", "1.3"):
             for std in (True, False):
@@ -630,6 +676,8 @@ def plan(tier: str, seed: int) -> list[dict]:
 def _run(kind, version, std, lib_server, reader, k, order="peer-first"):
     if kind == "async-tls":
         return async_session(version, std, lib_server, reader, k, order)
+    if kind == "async-lowlevel-server":
+        return async_session(version, std, True, "server-copy" if reader == "recv" else "server-buffered", k, "peer-first")
     if kind == "sync-tls":
         return sync_session(version, std, lib_server, reader, k, order)
     if kind == "sync-tcp-client":
@@ -644,7 +692,7 @@ def run_shard(params: dict, ctx) -> None:
         ctx.count("client_builds_default_context")
     rng = random.Random(params["seed"])
     kind, version, std, lib_server, tier = params["kind"], params["version"], params["std"], params["lib_server"], params["tier"]
-    client = kind.endswith("client")
+    client = kind.endswith("client") or kind == "async-lowlevel-server"  # readers that see lines
     ctx.count(f"kind:{kind}")
     ctx.count("tls" + version)
     ctx.count("mode:standard" if std else "mode:nonstandard")
